@@ -689,6 +689,20 @@ def _ip_ctor(x):
     return None
 
 
+def _whole(d):
+    """d with whole-value views stripped: `x[..]` (index by RangeFull) and `x.as_slice()` / `x.as_ref()` of an array are
+    every byte of x in the same order (a RangeTo / Range / RangeFrom reslice is NOT stripped: it may drop bytes)"""
+    while d[0] == 'call' and d[3]:
+        nm = _lastseg(d[1])
+        if nm == 'index' and len(d[3]) == 2 and d[3][1][0] == 'agg' and str(d[3][1][2]).endswith('RangeFull') and not d[3][1][3]:
+            d = d[3][0]
+        elif nm in ('as_slice', 'as_ref') and len(d[3]) == 1 and d[3][0][0] == 'call' and _lastseg(d[3][0][1]) == 'octets':
+            d = d[3][0]
+        else:
+            break
+    return d
+
+
 def _plain_read(d, buf):
     """d is what a read of the buffer parameter returned, untransformed: the only calls are reads of `buf` and Result::ok"""
     n = 0
@@ -740,6 +754,7 @@ def rule_g(ctx):
                     if _is_param(a) and a[1] != ip:
                         continue
                     vs = evs(a)
+                    a = _whole(a)
                     if vs is not None and len(vs) == 1:
                         tags.append((next(iter(vs)), c))
                     elif payload(a) or (a[0] == 'call' and _lastseg(a[1]) == 'octets' and len(a[3]) == 1 and payload(a[3][0])):
@@ -1003,6 +1018,39 @@ def decide(F, body, val, opt_ty=None, obs_adt=None):
     return out, obs
 
 
+def _split_on_option(F, body, call, k, field):
+    """(value of argument k of `call` on the paths over the None edge, ... over the Some edge) of the switch(es) of `body` on the
+    discriminant of the Option `self.<field>`; None when no such switch dominates the call.  Each value is computed on a copy
+    of the body in which those switches only take that edge, so a phi of the two arms is resolved per arm."""
+    from engine.facts import Body
+    sw = [br for br in branches(F, body) if br.desc[0] == 'discr' and _self_field(br.desc[1], field) and br.bb != call.bb and body.dominates(br.bb, call.bb)
+          and {v for v, _ in br.edges if v is not None} <= {0, 1} and br.target(0) != br.target(1)]
+    allsw = [br for br in branches(F, body) if br.desc[0] == 'discr' and _self_field(br.desc[1], field)]
+    if not sw:
+        return None
+    out = []
+    for val in (0, 1):      # Option: None = 0, Some = 1
+        d = dict(body.d)
+        blocks = list(d['blocks'])
+        for br in allsw:
+            blk = dict(blocks[br.bb])
+            blk['t'] = ['goto', br.target(val)]
+            blocks[br.bb] = blk
+        d['blocks'] = blocks
+        reach = Body(body.crate, d).reachable_from(0)
+        if call.bb not in reach:
+            return None
+        # the arm not taken no longer flows into the join (reaching definitions are searched backwards over predecessors)
+        for i in range(len(blocks)):
+            if i not in reach and not blocks[i]['c']:
+                blk = dict(blocks[i])
+                blk['t'] = ['unreach']
+                blocks[i] = blk
+        nb = Body(body.crate, d)
+        out.append(D.Describer(F, nb).operand(call.args[k], call.bb, len(nb.blocks[call.bb]['s'])))
+    return out[0], out[1]
+
+
 def _dom_pos(body, sites):
     """position of every site (a block) in the dominance chain of `sites`; None when they are not totally ordered"""
     pos = {}
@@ -1067,6 +1115,7 @@ def rule_h(ctx):
         return
     wfam = {}
     wargs = {}
+    wsite = {}
     for c in wsites:
         for k in range(1, len(c.args)):
             a = arg_desc(F, c, k)
@@ -1074,6 +1123,7 @@ def rule_h(ctx):
                 if x[0] == 'field' and x[2] in ('address_v4', 'address_v6') and _is_param(x[1], 1):
                     wfam.setdefault('V' + x[2][-1], set()).add(wpos[c.bb])
                     wargs[wpos[c.bb]] = a
+                    wsite[wpos[c.bb]] = (c, k)
     why = []
     for fam, (ipd, pod) in sorted(pairs.items()):
         got = []
@@ -1096,12 +1146,23 @@ def rule_h(ctx):
                 dflt, clo = a[3][1], a[3][2]
             elif a[0] == 'call' and a[1] == 'Option::unwrap_or' and len(a[3]) == 2 and a[3][0][0] == 'call' and a[3][0][1] == 'Option::map' and len(a[3][0][3]) == 2:
                 dflt, clo = a[3][1], a[3][0][3][1]
+            proj = None
+            if dflt is None:
+                # the Option taken apart by hand (`match self.address_vN { Some(a) => .., None => .. }`, `if let`, a default
+                # overwritten under `if let Some`): the value written is split by the discriminant edge -- what reaches the
+                # write over the None edge is the placeholder, what reaches it over the Some edge must be ip / port of the payload
+                sp = _split_on_option(F, wr, wsite[p][0], wsite[p][1], 'address_' + fam.lower())
+                if sp is not None:
+                    dflt, on_some = sp
+                    is_pay = lambda y: y[0] == 'field' and y[2] == '0' and y[1][0] == 'variant' and y[1][2] == 'Some' and _self_field(y[1][1], 'address_' + fam.lower())
+                    proj = {_lastseg(on_some[1]) if on_some[0] == 'call' and len(on_some[3]) == 1 and is_pay(on_some[3][0]) else '?'}
             if dflt is None:
                 why.append('write #%d: cannot tell the value emitted for an absent address_%s: %s' % (p, fam.lower(), D.render(a)[:80]))
                 continue
             n += 1
-            rets = [x for b in closures_of(F, wr, clo) for _, x in ret_descs(F, b)] if clo[0] == 'agg' else []
-            proj = {_lastseg(x[1]) if x[0] == 'call' and len(x[3]) == 1 and x[3][0][0] == 'param' else '?' for x in rets}
+            if proj is None:
+                rets = [x for b in closures_of(F, wr, clo) for _, x in ret_descs(F, b)] if clo[0] == 'agg' else []
+                proj = {_lastseg(x[1]) if x[0] == 'call' and len(x[3]) == 1 and x[3][0][0] == 'param' else '?' for x in rets}
             if idx == 0:
                 okp = dflt[0] == 'const' and str(dflt[3]).endswith('Ipv%sAddr::UNSPECIFIED' % fam[1]) and proj == {'ip'}
             else:
@@ -1359,6 +1420,27 @@ def rule_i(ctx):
             return None
         return h
     payload_of = lambda x, f: x[0] == 'field' and x[2] == '0' and x[1][0] == 'variant' and x[1][1][0] == 'call' and _lastseg(x[1][1][1]) == f
+
+    # "everything that remains": the whole of self.bytes is moved out (and an empty buffer left behind).  That is the stated
+    # effect of the helper Iter::take_remaining -- checked on its body, not taken from its name -- and it is accepted in-line too
+    def _moves_all_bytes(x):
+        if x[0] != 'call' or not x[3] or not _self_field(x[3][0], 'bytes'):
+            return False
+        if x[1] == 'mem::take' and len(x[3]) == 1:
+            return True
+        return (x[1] == 'mem::replace' and len(x[3]) == 2 and x[3][1][0] == 'call' and x[3][1][1] in ('Bytes::new', '<Bytes as Default>::default') and not x[3][1][3])
+    helper_ok = {}
+
+    def _takes_rest(x):
+        if _moves_all_bytes(x):
+            return True
+        if x[0] == 'call' and x[1] == 'Iter::take_remaining' and len(x[3]) == 1 and _is_param(x[3][0], 1):
+            if 'v' not in helper_ok:
+                hs = [b for b in F.fns('Iter::take_remaining') if b.crate == 'quinn_proto' and b.kind == 'fn']
+                rets = [y for b in hs for _, r in ret_descs(F, b) for y in flat(r)]
+                helper_ok['v'] = len(hs) == 1 and bool(rets) and all(_moves_all_bytes(y) for y in rets)
+            return helper_ok['v']
+        return False
     aggs = []
     for i, j, pl, rv, line in tn.assigns():
         if i in tn.live_blocks() and rv[0] == 'agg' and rv[1][0] == 'adt' and rv[1][1].endswith('::frame::Stream'):
@@ -1374,7 +1456,7 @@ def rule_i(ctx):
         pos, neg = _cond_edges(tn, tbrs, on_info('len'))
         alts = flat(fld['data'])
         tl = [a[1][1][4] for a in alts if payload_of(a, 'take_len') and len(a[1][1]) > 4]
-        tr = [a[4] for a in alts if a[0] == 'call' and a[1] == 'Iter::take_remaining' and len(a) > 4]
+        tr = [a[4] for a in alts if _takes_rest(a) and len(a) > 4]
         hl = on_info('len')
         npos, nneg = _cond_edges(tn, tbrs, lambda br: None if hl(br) is None else not hl(br))
         if len(tl) + len(tr) != len(alts) or not tl or not tr:
